@@ -13,6 +13,10 @@ the centre and an exact rational unit vector (c, s) within 1e-30 rad of (cos, si
 t = tan(phi/2) rounded to a rational, c = (1-t^2)/(1+t^2), s = 2t/(1+t^2), quarter turns exact) - the ROTATION is done
 in Lean (`toFrame`/`codeFrame`), under the hypothesis c^2 + s^2 = 1 of the theorems, which the driver re-checks on every
 line.  A band of 0.5 m + 0.1 % of the distance from the centre around the border is excluded and counted.
+Round 5: the state the decisions read is produced by HISTORIES on the real code - (g) earlier receptions from the
+packet's source with older / equal / newer position vectors (annex C.2: the table keeps the newest; Annex D on the table's
+vector), (h) TPV reports of the location service lacking any subset of lat / lon / speed / track (the station is where
+the last report WITH a fix put it) - judged on the following GBC / GAC receptions.
 """
 from __future__ import annotations
 
@@ -61,6 +65,13 @@ ASSUMPTIONS = [
     "layer hands the router no sender address); for a relayed packet (sender != source) whose source and sender entries "
     "disagree on SE_POS_VALID-and-inside, a receiver outside the area forwards where Annex D discards (or vice versa)",
     "placements whose latitude would leave [-90, 90] degrees are not generated",
+    "sender histories (round 5): 1-3 earlier receptions from the packet's source (beacon / SHB / GBC / GAC, all transmitted "
+    "by one real Router) before the packet under test, position-vector timestamps within +-5 s of the virtual clock in steps "
+    "of 100 ms incl. equal timestamps (no 2^32 wrap-around: C20), first hop only (sender = source)",
+    "ego histories (round 5): 1-6 TPV reports lacking every subset of lat / lon / speed / track, `time` always present, mode "
+    "0/1 (or absent) only on reports without lat or lon, handed to Router.refresh_ego_position_vector directly or through the "
+    "receive loop of the real GPSDLocationService with a scripted socket; coordinates are chosen to survive the code's float "
+    "round trip int(v / 1e7 * 10**7); the station's true position = the last report with lat AND lon (else its position before)",
 ]
 
 getcontext().prec = 50
@@ -1386,6 +1397,51 @@ def egohist_truth(c):
     return pos
 
 
+def feed_gpsd(B, reports):
+    """the reports reach the router the way they do in a deployment: through the receive loop of the real
+    `GPSDLocationService` (its TCP socket replaced by a scripted one, the loop run synchronously in this thread) with
+    `Router.refresh_ego_position_vector` registered as callback.  Returns one entry per report: None (handled), the name
+    of the exception that ENDED the service loop, or "lost" (never delivered because the loop had ended)."""
+    import json
+    import logging
+    import threading
+    import types
+    import flexstack.utils.gpsd_location_service as gmod
+    q = [json.dumps(tpv_of(r, i)).encode() for i, r in enumerate(reports)]
+    n = len(q)
+    svc = gmod.GPSDLocationService.__new__(gmod.GPSDLocationService)
+    gmod.LocationService.__init__(svc)
+    svc.logger, svc.gpsd_host, svc.gpsd_port, svc.stop_event = logging.getLogger("GPSDLocationService"), "localhost", 2947, threading.Event()
+
+    class Sock:
+        def connect(self, addr):
+            pass
+
+        def send(self, data):
+            return len(data)
+
+        def close(self):
+            pass
+
+        def recv(self, size):
+            if q:
+                return q.pop(0)
+            svc.stop_event.set()
+            return b""
+    svc.socket = Sock()
+    svc.add_callback(B.refresh_ego_position_vector)
+    old = gmod.socket
+    gmod.socket = types.SimpleNamespace(socket=lambda *a, **k: Sock(), AF_INET=0, SOCK_STREAM=0, setdefaulttimeout=lambda t: None)
+    try:
+        svc.start()
+        return [None] * n
+    except Exception as e:  # noqa: BLE001
+        done = n - len(q)
+        return [None] * (done - 1) + [type(e).__name__] + ["lost"] * len(q)
+    finally:
+        gmod.socket = old
+
+
 def egohist_run(c, transport):
     """(actions, error, real ego (lat, lon) after the history, exception names of the reports)"""
     code, pkts = originate(dict(c, transport=transport, max_src=10 ** 7))
@@ -1394,12 +1450,15 @@ def egohist_run(c, transport):
     B, llB, inds = rs.make_router(2, itsGnMaxGeoAreaSize=10 ** 7, itsGnAreaForwardingAlgorithm=AreaForwardingAlgorithm.SIMPLE)
     B.ego_position_vector = lpv(B, *c["ego0"])
     excs = []
-    for i, r in enumerate(c["reports"]):
-        try:
-            B.refresh_ego_position_vector(tpv_of(r, i))
-            excs.append(None)
-        except Exception as e:  # noqa: BLE001
-            excs.append(type(e).__name__)
+    if c.get("via") == "gpsd":
+        excs = feed_gpsd(B, c["reports"])
+    else:
+        for i, r in enumerate(c["reports"]):
+            try:
+                B.refresh_ego_position_vector(tpv_of(r, i))
+                excs.append(None)
+            except Exception as e:  # noqa: BLE001
+                excs.append(type(e).__name__)
     ego = (B.ego_position_vector.latitude, B.ego_position_vector.longitude)
     acts, err = rx_on(B, llB, inds, pkts[0])
     return acts, err, ego, excs
@@ -1439,9 +1498,12 @@ def check_egohist(ctx, cases, jobs=None):
             if bad:
                 ctx.violation(f"{transport} {c['shape']} a={c['a']} b={c['b']} azimuth={c['az']} centre=({c['lat0']},{c['lon0']}): after the position "
                               f"reports [{', '.join(_rep_str(r) for r in c['reports'])}] the station's last fixed position is {truth} "
-                              f"({'inside' if t_in else 'outside'} the area), the router's ego position is {ego}: " + "; ".join(bad), tag)
+                              f"({'inside' if t_in else 'outside'} the area), the router's ego position is {ego}"
+                              + (f" [reports fed through GPSDLocationService: its loop ended with {next(e for e in excs if e)}, {excs.count('lost')} later "
+                                 f"report(s) never reached the router]" if c.get("via") == "gpsd" and any(excs) else "") + ": " + "; ".join(bad), tag)
             ctx.cover(f"egohist_{transport}_{'in' if t_in else 'out'}")
         ctx.cover("egohist_cases")
+        ctx.cover("egohist_via_" + c.get("via", "callback"))
         for r, e in zip(c["reports"], excs):
             miss = "".join(k[0] for k in ("lat", "lon") if r.get(k) is None) + "".join(k[0] for k in ("speed", "track") if not r.get(k))
             ctx.cover("egohist_report_missing_" + (miss or "nothing") + ("_raised_" + e if e else ""))
@@ -1452,6 +1514,8 @@ def check_egohist(ctx, cases, jobs=None):
         if abs(c["lat0"]) < 10 ** 5 and abs(c["lon0"]) < 10 ** 5:
             ctx.cover("egohist_area_around_0N_0E")
         ctx.nontrivial(("egohist", c["shape"], c["a"], c["b"], c["az"], t_in, s_in, tuple(_rep_str(r) for r in c["reports"])))
+        if variant == "required" and c.get("via") == "gpsd":
+            continue        # code before fix C07-F4: the service loop ends at the first rejected report (not modelled; judged by the oracle)
         lines.append(f"ego {1 if variant == 'required' else 0} {c['ego0'][0]} {c['ego0'][1]} " + " ".join(
             "%s,%s,%d,%d" % ("-" if r.get("lat") is None else r["lat"], "-" if r.get("lon") is None else r["lon"],
                              1 if r.get("speed") else 0, 1 if r.get("track") else 0) for r in c["reports"]))
@@ -1514,6 +1578,8 @@ def gen_egohist(rng):
         if not reps:
             continue
         c["reports"] = reps
+        if rng.random() < 0.3:
+            c["via"] = "gpsd"
         return c
     return None
 
@@ -1535,6 +1601,12 @@ def egohist_fixed():
                      {"lat": None, "lon": pin[1], "speed": False, "track": True, "mode": None}):
             out.append(dict(b2, ego0=list(far), reports=[dict(full, lat=pin[0], lon=pin[1]), lost]))
             out.append(dict(b2, ego0=list(pin), reports=[dict(full, lat=far[0], lon=far[1]), lost, lost]))
+        # through the location service's loop: fix, outage, fix somewhere else - and the same arriving without course
+        out.append(dict(b2, via="gpsd", ego0=list(far), reports=[dict(full, lat=pin[0], lon=pin[1]),
+                                                                  {"lat": None, "lon": None, "speed": False, "track": False, "mode": 1},
+                                                                  dict(full, lat=pout[0], lon=pout[1])]))
+        out.append(dict(b2, via="gpsd", ego0=list(far), reports=[{"lat": None, "lon": None, "speed": False, "track": False, "mode": 0},
+                                                                  {"lat": pin[0], "lon": pin[1], "speed": True, "track": False, "mode": 2}]))
         # a fix without course / speed (standstill), arriving and leaving
         out.append(dict(b2, ego0=list(pout), reports=[{"lat": pin[0], "lon": pin[1], "speed": True, "track": False, "mode": 2}]))
         out.append(dict(b2, ego0=list(pin), reports=[{"lat": pout[0], "lon": pout[1], "speed": False, "track": False, "mode": 3},
